@@ -42,7 +42,8 @@ SCHEMAS = {
 # a second directory: files with the SAME base names (and proto names) as s1 / s3 / shared but other contents -
 # anything remembered per file name or proto name instead of per file collides
 ALT = {
-    "alt/s1": SCHEMAS["s2"].replace("uint6 w = 3", "uint7 w = 3"),
+    # ... and considerably LONGER output than s1's (an older, longer file of the same name is what a reused output directory holds)
+    "alt/s1": SCHEMAS["s2"].replace("uint6 w = 3", "uint7 w = 3") + "\nmessage Extra {\n    uint9[3] xs = 1\n    Pen pen = 2\n    Color[2] cs = 3\n    int33 big = 4\n}\n",
     "alt/s3": SCHEMAS["s3"],
     "alt/shared": LIB.replace("int7 y = 2", "int9 y = 2\n    bool z = 3"),
 }
